@@ -155,6 +155,15 @@ BLOCKS = """blocks:
             ip: duct.op
             mult: 1.0
             op: 16.8
+    solid plate: &block_solid_plate
+        plate:
+            shape: Hexagon
+            material: HT9
+            Tinput: 25.0
+            Thot: 450.0
+            ip: 0.0
+            mult: 1.0
+            op: 16.717522615847596
     shield: &block_shield
         duct:
             shape: Hexagon
@@ -271,7 +280,7 @@ def blueprint_text(spec):
     plate = bool(spec.get("plate", False))
     plenum = bool(spec.get("plenum", False))
     fuel_anchor = "*block_pin_fuel" if spec.get("pins") else "*block_fuel"
-    blocks = (["*block_grid_plate"] if plate else []) + [fuel_anchor] * nfuel + (["*block_shield"] if spec.get("shield") else []) + (["*block_plenum"] if plenum else [])
+    blocks = (["*block_solid_plate"] if spec.get("solid_plate") else []) + (["*block_grid_plate"] if plate else []) + [fuel_anchor] * nfuel + (["*block_shield"] if spec.get("shield") else []) + (["*block_plenum"] if plenum else [])
     if spec.get("dummy"):
         blocks.append("*block_dummy")
     nb = len(blocks)
@@ -295,7 +304,7 @@ def blueprint_text(spec):
         ablocks, aheights = blocks, None
         if spec_id == "OC" and spec.get("oc_extra_fuel"):
             # the outer assemblies have one fuel block more: everything above the fuel sits one index higher
-            k = (1 if plate else 0) + nfuel
+            k = (1 if spec.get("solid_plate") else 0) + (1 if plate else 0) + nfuel
             ablocks = blocks[:k] + [fuel_anchor] + blocks[k:]
             aheights = heights[:k] + [heights[k - 1]] + heights[k:]
         lines.append(f"    {name}:")
